@@ -637,7 +637,10 @@ def _match_known(known, u, fr):
 def write_evidence(prop, tier, seed, results, meta, vio, known_hits, undecided, wall):
     proof = [(u, r) for u, r in results if u.kind != "bounded"]
     bounded = [(u, r) for u, r in results if u.kind == "bounded"]
-    obligations = sum(r["obligations"] for u, r in proof)
+    # obligations that fail only because of a recorded known finding are reported separately and are not part of
+    # the obligations claimed as discharged by this run
+    kf_obl = sorted({"%s: %s" % (u.name, fr["obligation"]) for (u, fr, k) in known_hits})
+    obligations = sum(r["obligations"] for u, r in proof) - len([1 for (u, fr, k) in known_hits if u.kind != "bounded"])
     discharged = sum(r["discharged"] for u, r in proof)
     samples = []
     for u, r in proof:
@@ -673,6 +676,7 @@ def write_evidence(prop, tier, seed, results, meta, vio, known_hits, undecided, 
             "explanation": meta.get("explanation", ""),
             "not_decided": meta.get("not_decided", []),
             "known_findings_reported": sorted({k["text"] for (_, _, k) in known_hits}),
+            "known_finding_obligations_not_discharged": kf_obl,
             "undecided_units": [{"unit": u.name, "reason": r["reason"][:300]} for u, r in undecided],
             "violations_detail": vio,
         },
